@@ -11,7 +11,7 @@ division by zero must be rejected with a diagnostic.
 from specs import mc6809, exprsem
 from pyvc.asmh import assemble
 from lemmas.common import literal
-from lemmas.asm_forms import vclass, dsum
+from lemmas.asm_forms import vclass, dsum, vsplit
 
 POSITIONS = {
     # id: (mnemonic, operand template, field)   field: imm8|imm16|mem|extind|idx|equ|fcb|fdb
@@ -166,6 +166,7 @@ class AsmExpr:
             else:
                 env.fail("C04:div-by-zero-rejected", ("C04",), sig("div0-accepted"))
             return
+        sp = vsplit(val)
         W = {"imm8": 1, "fcb": 1}.get(field, 2)
         in16 = bool((val >= 0) & (val <= 65535)) if not isinstance(val, int) else 0 <= val <= 65535
         if W == 1:
@@ -175,7 +176,7 @@ class AsmExpr:
         must_accept = in16 and (W == 2 or bool(val <= 255))
         if run.status == "diag":
             if must_accept:
-                env.fail("C04:accepted", ("C04",), sig("rejected:%s:val=%s" % (run.exc_class, vclass(val) if native else "")))
+                env.fail("C04:accepted", ("C04",), sig("rejected:%s:val=%s" % (run.exc_class, vclass(val) if native else "")), split=sp)
             else:
                 env.ensure("C04:rejection-justified", True, ("C04",))
             return
@@ -187,51 +188,51 @@ class AsmExpr:
         if field == "equ":
             sv = run.symbols.get("S")
             if sv is None:
-                env.fail("C04:value", ("C04",), vsig("equ-symbol-has-no-value"))
+                env.fail("C04:value", ("C04",), vsig("equ-symbol-has-no-value"), split=sp)
                 return
-            env.ensure("C04:value", (sv - val) % 65536 == 0, ("C04",), vsig("equ-value=%s" % (sv,)))
+            env.ensure("C04:value", (sv - val) % 65536 == 0, ("C04",), vsig("equ-value=%s" % (sv,)), split=sp)
             return
         env.ensure("C02:size", st.size == len(st.bytes), ("C02", "C12", "C04"), vsig("size=%s,len=%d" % (st.size, len(st.bytes))))
         if field in ("fcb", "fdb"):
             if len(st.bytes) != W:
-                env.fail("C04:value", ("C04", "C05"), vsig("count=%d" % len(st.bytes)))
+                env.fail("C04:value", ("C04", "C05"), vsig("count=%d" % len(st.bytes)), split=sp)
                 return
             got = st.bytes[0] if W == 1 else st.bytes[0] * 256 + st.bytes[1]
             if not fits:
-                env.fail("C04:width", ("C04",), vsig("unfit-accepted"))
+                env.fail("C04:width", ("C04",), vsig("unfit-accepted"), split=sp)
                 return
-            env.ensure("C04:value", (got - val) % (256 ** W) == 0, ("C04", "C05"), vsig("value-mismatch"))
+            env.ensure("C04:value", (got - val) % (256 ** W) == 0, ("C04", "C05"), vsig("value-mismatch"), split=sp)
             return
         d = mc6809.decode(st.bytes)
         if not (d.ok and d.length == len(st.bytes) and mnem in mc6809.names_of(d.op)):
-            env.fail("C04:value", ("C04", "C12"), vsig("undecodable:%s" % (d.why or "length/op")))
+            env.fail("C04:value", ("C04", "C12"), vsig("undecodable:%s" % (d.why or "length/op")), split=sp)
             return
         if field in ("imm8", "imm16"):
             if d.mode != ("imm8" if W == 1 else "imm16"):
-                env.fail("C04:value", ("C04",), vsig("mode=%s" % d.mode))
+                env.fail("C04:value", ("C04",), vsig("mode=%s" % d.mode), split=sp)
                 return
             if not fits:
-                env.fail("C04:width", ("C04", "C12"), vsig("unfit-accepted"))
+                env.fail("C04:width", ("C04", "C12"), vsig("unfit-accepted"), split=sp)
                 return
-            env.ensure("C04:value", (d.value - val) % (256 ** W) == 0, ("C04",), vsig("value-mismatch"))
+            env.ensure("C04:value", (d.value - val) % (256 ** W) == 0, ("C04",), vsig("value-mismatch"), split=sp)
         elif field == "mem":
             if d.mode not in ("dir", "ext"):
-                env.fail("C04:value", ("C04",), vsig("mode=%s" % d.mode))
+                env.fail("C04:value", ("C04",), vsig("mode=%s" % d.mode), split=sp)
                 return
-            env.ensure("C04:value", (d.value - val) % 65536 == 0, ("C04",), vsig("value-mismatch:%s" % d.mode))
+            env.ensure("C04:value", (d.value - val) % 65536 == 0, ("C04",), vsig("value-mismatch:%s" % d.mode), split=sp)
         elif field == "extind":
             ok = d.mode == "idx" and d.kind == "extind"
             if not ok:
-                env.fail("C04:value", ("C04",), vsig("meaning:%s" % dsum(d)))
+                env.fail("C04:value", ("C04",), vsig("meaning:%s" % dsum(d)), split=sp)
                 return
-            env.ensure("C04:value", (d.value - val) % 65536 == 0, ("C04",), vsig("value-mismatch"))
+            env.ensure("C04:value", (d.value - val) % 65536 == 0, ("C04",), vsig("value-mismatch"), split=sp)
         elif field == "idx":
             reg = "X" if pos == "idx" else "Y"
             ok = d.mode == "idx" and d.kind in ("off0", "off5", "off8", "off16") and d.reg == reg and not d.indirect
             if not ok:
-                env.fail("C04:value", ("C04",), vsig("meaning:%s" % dsum(d)))
+                env.fail("C04:value", ("C04",), vsig("meaning:%s" % dsum(d)), split=sp)
                 return
-            env.ensure("C04:value", (d.offset - val) % 65536 == 0, ("C04",), vsig("value-mismatch:%s" % d.kind))
+            env.ensure("C04:value", (d.offset - val) % 65536 == 0, ("C04",), vsig("value-mismatch:%s" % d.kind), split=sp)
 
 
 LEMMAS = [AsmExpr()]
